@@ -7,6 +7,25 @@ pub(crate) fn stub_unproj(x: f64, y: f64) -> (f64, f64) {
 }
 fn set_plane(x: f64, y: f64) { unsafe { PLANE = (x.to_bits(), y.to_bits()); } }
 
+/// `Layer::d0h_lh_in_d0c` under the plane cut (used by hash_with_dxdy for the positions on / next to the polar base-cell borders):
+/// any base cell and in-base-cell coordinates consistent with the plane point chosen by the harness -- range facts of lemma R
+/// (decided on the real code by C01 / C02) and placement within 2^-46 (lemma P of C01): centre(d0h) + (l, h - 1) = (x, y), x modulo 8.
+pub(crate) fn stub_d0h_lh_plane(_lon: f64, _lat: f64) -> (u8, f64, f64) {
+  let (x, y) = unsafe { (f64::from_bits(PLANE.0), f64::from_bits(PLANE.1)) };
+  let d0h: u8 = kani::any();
+  let l: f64 = kani::any();
+  let h: f64 = kani::any();
+  let tol = 1.4210854715202004e-14;   // 2^-46
+  kani::assume(d0h < 12 && l >= -1.0 - tol && l <= 1.0 + tol && h >= -tol && h <= 2.0 + tol);
+  kani::assume(h + l < 2.0000000037252903 && h - l < 2.0000000037252903 && h + l >= -tol && h - l >= -tol);
+  let mut ex = BASE_CX[d0h as usize] as f64 + l - x;
+  if ex > 4.0 { ex -= 8.0; }
+  if ex < -4.0 { ex += 8.0; }
+  let ey = BASE_CY[d0h as usize] as f64 + (h - 1.0) - y;
+  kani::assume(ex <= tol && ex >= -tol && ey <= tol && ey >= -tol);
+  (d0h, l, h)
+}
+
 fn in_image(x: f64, y: f64, eps: f64) -> bool {
   let ay = if y < 0.0 { -y } else { y };
   if !(x >= 0.0 && x <= 8.0 && ay <= 2.0) { return false; }
